@@ -366,6 +366,30 @@ def cname(c):
         '/s%d' % c['steps'], ('#%d' % c['rep']) if c['rep'] else '')
 
 
+class _Budget:
+    """at most BUDGET_TOTAL OpenMP threads in flight"""
+    def __init__(self, n):
+        import threading
+        self.n = n
+        self.cv = threading.Condition()
+
+    def acquire(self, k):
+        with self.cv:
+            while self.n < k:
+                self.cv.wait()
+            self.n -= k
+
+    def release(self, k):
+        with self.cv:
+            self.n += k
+            self.cv.notify_all()
+
+
+BUDGET_TOTAL = 16
+RUN_TIMEOUT = 900
+_BUDGET = _Budget(BUDGET_TOTAL)
+
+
 def run_one(c, seed, work, idx):
     d = os.path.join(work, 'run%05d' % idx)
     os.makedirs(d, exist_ok=True)
@@ -375,13 +399,25 @@ def run_one(c, seed, work, idx):
     json.dump(spec, open(sf, 'w'))
     env = dict(os.environ)
     env['OMP_NUM_THREADS'] = str(c['threads'] if c['openmp'] else 1)
+    # the machine is shared with other checks: idle OpenMP threads must sleep,
+    # not spin (results do not depend on the wait policy)
+    env['OMP_WAIT_POLICY'] = 'passive'
+    env['GOMP_SPINCOUNT'] = '0'
+    need = min(BUDGET_TOTAL, c['threads'] if c['openmp'] else 1)
+    _BUDGET.acquire(need)
     t0 = time.time()
-    p = subprocess.run([sys.executable, HERE, '--worker', sf], env=env,
-                       stdout=subprocess.PIPE, stderr=subprocess.STDOUT,
-                       text=True, cwd=d)
-    r = {'cfg': c, 'rc': p.returncode, 'wall': time.time() - t0,
-         'log': p.stdout[-3000:], 'dir': d}
-    if p.returncode == 0 and os.path.exists(spec['out']):
+    try:
+        p = subprocess.run([sys.executable, HERE, '--worker', sf], env=env,
+                           stdout=subprocess.PIPE, stderr=subprocess.STDOUT,
+                           text=True, cwd=d, timeout=RUN_TIMEOUT)
+        rc, log = p.returncode, p.stdout[-3000:]
+    except subprocess.TimeoutExpired as e:
+        rc = -999
+        log = 'TIMEOUT after %ds: %s' % (RUN_TIMEOUT, str(e.stdout or '')[-1500:])
+    finally:
+        _BUDGET.release(need)
+    r = {'cfg': c, 'rc': rc, 'wall': time.time() - t0, 'log': log, 'dir': d}
+    if rc == 0 and os.path.exists(spec['out']):
         z = np.load(spec['out'])
         r['data'] = {k: z[k] for k in z.files}
         r['info'] = json.load(open(spec['out'] + '.json'))
